@@ -1,8 +1,10 @@
 package main
 
 import (
+	"fmt"
 	"go/types"
 	"golang.org/x/tools/go/ssa"
+	"regexp"
 	"strings"
 )
 
@@ -109,6 +111,455 @@ func mapOrderLeaks(p *Program, prefixes ...string) (checked int, leaks []string,
 				if !sorted {
 					leaks = append(leaks, name+": returns "+trunc(rt, 100)+" built while ranging over a map, unsorted")
 					pos = append(pos, app)
+				}
+			}
+		}
+	}
+	return
+}
+
+// ruleExactDecoders: a generated decodeT reports how many bytes it consumed and leaves the comparison with
+// the buffer length to its caller (decodeTExact, or the gnet framing which checks the count).  A caller that
+// throws the count away accepts any input with trailing bytes.  Every call of a decodeT that has a
+// decodeTExact sibling must therefore use result #0 or return the (count, error) pair unchanged.
+func ruleExactDecoders(r *Run, rule string, prefixes ...string) {
+	n := 0
+	for _, fn := range r.P.ModFns {
+		for _, b := range fn.Blocks {
+			for _, in := range b.Instrs {
+				call, ok := in.(*ssa.Call)
+				if !ok {
+					continue
+				}
+				cal := call.Call.StaticCallee()
+				if cal == nil || cal.Pkg == nil || !strings.HasPrefix(cal.Name(), "decode") || strings.HasSuffix(cal.Name(), "Exact") {
+					continue
+				}
+				if cal.Pkg.Func(cal.Name()+"Exact") == nil {
+					continue
+				}
+				name := FnName(cal)
+				hit := len(prefixes) == 0
+				for _, p := range prefixes {
+					if strings.HasPrefix(name, p) {
+						hit = true
+					}
+				}
+				if !hit {
+					continue
+				}
+				n++
+				used := false
+				for _, ref := range *call.Referrers() {
+					switch x := ref.(type) {
+					case *ssa.Extract:
+						if x.Index == 0 && x.Referrers() != nil && len(*x.Referrers()) > 0 {
+							used = true
+						}
+					case *ssa.Return:
+						used = true
+					}
+				}
+				r.Check(rule, FnName(fn)+" uses the byte count returned by "+name, r.P.Pos(call.Pos()), used,
+					"the number of bytes consumed is discarded: input with trailing bytes is accepted")
+			}
+		}
+	}
+	r.Units["decoder call sites"] += n
+	if n == 0 {
+		r.Fail(rule, "calls of generated decoders", "", "anchor-unresolved: no call of a decodeT with a decodeTExact sibling found")
+	}
+}
+
+// ruleVerifyParamsSites (C05/C06/C11): which soft-rule parameter set reaches which verification site.
+// Every argument of type params.VerifyTxn in the module is enumerated; the callers are a reviewed table:
+// the block publisher's filter uses Config.CreateBlockVerifyTxn, the unconfirmed pool (foreign injection,
+// refresh) Config.UnconfirmedVerifyTxn, everything a user submits params.UserVerifyTxn, and pure
+// pass-through functions hand on their own parameter.
+func ruleVerifyParamsSites(r *Run, rule string) {
+	// keyed by the enclosing top-level function (closures included)
+	table := map[string]string{
+		"visor.Visor.createBlockFromTxns":       "0.Config.CreateBlockVerifyTxn",
+		"visor.Visor.RefreshUnconfirmed":        "0.Config.UnconfirmedVerifyTxn",
+		"visor.Visor.InjectForeignTransaction":  "0.Config.UnconfirmedVerifyTxn",
+		"visor.Visor.InjectUserTransactionTx":   "params.UserVerifyTxn",
+		"visor.Visor.VerifyTxnVerbose":          "params.UserVerifyTxn",
+		"visor.Visor.WalletSignTransaction":     "params.UserVerifyTxn",
+		"visor.Visor.createTransactionTx":       "params.UserVerifyTxn",
+		"visor.Visor.walletCreateTransactionTx": "params.UserVerifyTxn",
+	}
+	hit := map[string]bool{}
+	n := 0
+	isVP := func(t types.Type) bool {
+		nt, ok := t.(*types.Named)
+		return ok && nt.Obj().Name() == "VerifyTxn" && nt.Obj().Pkg() != nil && strings.HasSuffix(nt.Obj().Pkg().Path(), "/params")
+	}
+	for _, fn := range r.P.ModFns {
+		name := FnName(fn)
+		if !strings.HasPrefix(name, "visor.") {
+			continue
+		}
+		ff := r.P.Facts(fn)
+		for _, b := range fn.Blocks {
+			for _, in := range b.Instrs {
+				ci, ok := in.(ssa.CallInstruction)
+				if !ok {
+					continue
+				}
+				for _, a := range ci.Common().Args {
+					if !isVP(a.Type()) {
+						continue
+					}
+					// methods of VerifyTxn itself (Validate, MaxDropletDivisor) are not verification sites
+					if cal := ci.Common().StaticCallee(); cal != nil && cal.Signature.Recv() != nil && isVP(cal.Signature.Recv().Type()) {
+						continue
+					}
+					n++
+					t := ff.Term(a)
+					root := name
+					if k := strings.Index(root, "$"); k > 0 {
+						root = root[:k]
+					}
+					want, listed := table[root]
+					hit[root] = hit[root] || listed
+					passthrough := ownParamRe.MatchString(t) // "$k": the function's own parameter handed on
+					ok := passthrough || listed && (t == want || strings.HasSuffix(t, "$"+want) || strings.HasSuffix(t, "^"+want))
+					d := "passes " + t
+					if listed {
+						d += ", the reviewed parameter set for this site is " + want
+					} else {
+						d += "; the site is not in the reviewed table"
+					}
+					r.Check(rule, name+" -> "+calleeName(ci.Common())+": verification parameter set", r.P.Pos(ci.Pos()), ok, d)
+				}
+			}
+		}
+	}
+	for k := range table {
+		r.Check(rule, "reviewed verification site "+k+" exists", "", hit[k], "anchor-unresolved: the site passes no params.VerifyTxn any more")
+	}
+	r.Units["verify-params call sites"] += n
+	// the node's settings reach the visor configuration slot of the same name
+	const cv = "skycoin.Coin.ConfigureVisor"
+	r.RequireStore(rule, cv, "block-creation parameters = configured block-creation parameters", "*.CreateBlockVerifyTxn := $0.config.Node.CreateBlockVerifyTxn")
+	r.RequireStore(rule, cv, "unconfirmed parameters = configured unconfirmed parameters", "*.UnconfirmedVerifyTxn := $0.config.Node.UnconfirmedVerifyTxn")
+	_, bad, pos := crossedFieldCopies(r.P, "skycoin.", "visor.")
+	for i, b := range bad {
+		r.Check(rule, "configuration copy: "+b, r.P.Pos(pos[i].Pos()), false, "a parameter set is taken from its sibling setting")
+	}
+	if n < 10 {
+		r.Fail(rule, "verification parameter sites", "", fmt.Sprintf("anchor-unresolved: found %d call sites passing a params.VerifyTxn, hand-confirmed minimum is 10", n))
+	}
+}
+
+var ownParamRe = regexp.MustCompile(`^\$\d+$`)
+
+// ruleNoStateBesideTx (C04): everything block execution changes lives in the database transaction, so that a
+// rollback undoes all of it.  A method of the chain/pool/history accessors that runs inside a transaction
+// (it takes a *dbutil.Tx) therefore never writes to memory that outlives the call: no store through its
+// receiver or another pointer parameter, no store to a package-level variable.  Decoding into a caller's
+// object (parameters of the generated decoders) and the bolt API itself are outside the scope.
+func ruleNoStateBesideTx(r *Run, rule string) {
+	n := 0
+	isTx := func(t types.Type) bool {
+		p, ok := t.(*types.Pointer)
+		if !ok {
+			return false
+		}
+		nt, ok := p.Elem().(*types.Named)
+		return ok && nt.Obj().Name() == "Tx" && nt.Obj().Pkg() != nil && strings.HasSuffix(nt.Obj().Pkg().Path(), "/dbutil")
+	}
+	for _, fn := range r.P.ModFns {
+		name := FnName(fn)
+		if !(strings.HasPrefix(name, "visor/blockdb.") || strings.HasPrefix(name, "visor/historydb.") || strings.HasPrefix(name, "visor.Blockchain.") || strings.HasPrefix(name, "visor.UnconfirmedTransactionPool.") || strings.HasPrefix(name, "visor.unconfirmedTxns.") || strings.HasPrefix(name, "visor.txUnspents.")) {
+			continue
+		}
+		if fn.Parent() != nil || fn.Signature.Recv() == nil {
+			continue
+		}
+		hasTx := false
+		for _, p := range fn.Params {
+			if isTx(p.Type()) {
+				hasTx = true
+			}
+		}
+		if !hasTx {
+			continue
+		}
+		n++
+		ff := r.P.Facts(fn)
+		bad, pos := "", fn.Pos()
+		for _, b := range fn.Blocks {
+			for _, in := range b.Instrs {
+				switch x := in.(type) {
+				case *ssa.Store:
+					root := x.Addr
+					for d := 0; d < 20; d++ {
+						switch y := root.(type) {
+						case *ssa.FieldAddr:
+							root = y.X
+							continue
+						case *ssa.IndexAddr:
+							root = y.X
+							continue
+						}
+						break
+					}
+					if _, isG := root.(*ssa.Global); isG {
+						bad, pos = "store to package variable "+ff.Term(x.Addr), x.Pos()
+					}
+					if p, isP := root.(*ssa.Parameter); isP && len(fn.Params) > 0 && p == fn.Params[0] {
+						bad, pos = "store to receiver state "+ff.Term(x.Addr), x.Pos()
+					}
+					if u, isU := root.(*ssa.UnOp); isU {
+						// a field of the receiver that is itself a pointer: *recv.f = ...
+						if fa, ok := u.X.(*ssa.FieldAddr); ok {
+							if p, isP := fa.X.(*ssa.Parameter); isP && len(fn.Params) > 0 && p == fn.Params[0] {
+								bad, pos = "store through receiver field "+ff.Term(x.Addr), x.Pos()
+							}
+						}
+					}
+				case *ssa.MapUpdate:
+					t := ff.Term(x.Map)
+					if strings.HasPrefix(t, "$0.") {
+						bad, pos = "update of receiver map "+t, x.Pos()
+					}
+				}
+			}
+		}
+		r.Check(rule, name+": keeps no state beside the database transaction", r.P.Pos(pos), bad == "", bad+": memory written inside a transaction is not undone when the transaction rolls back")
+	}
+	r.Units["transactional accessor methods"] += n
+	if n < 100 {
+		r.Fail(rule, "transactional accessor methods", "", fmt.Sprintf("anchor-unresolved: found %d methods taking a *dbutil.Tx, hand-confirmed minimum is 100", n))
+	}
+}
+
+// ruleRecoverWalletOptions (C17/C19): both wallets RecoverWallet builds (the fingerprint probe and the
+// replacement) are derived from the caller's seed and seed passphrase with the type and coin of the wallet
+// being recovered; the replacement is encrypted with the caller's password.
+func ruleRecoverWalletOptions(r *Run, rule string) {
+	const f = "wallet.Service.RecoverWallet"
+	fn := r.fn(rule, f)
+	if fn == nil {
+		return
+	}
+	sites := r.CallSites(fn, "wallet.Service.createWallet")
+	r.Check(rule, f+": builds the probe and the replacement wallet", r.P.Pos(fn.Pos()), len(sites) == 2, fmt.Sprint(len(sites)))
+	w := "wallet.Service.getWallet($0, $1)#0"
+	for i, cs := range sites {
+		t := r.argTerm(cs, 2)
+		want := []string{"Seed: $2,", "SeedPassphrase: $3,", "Type: iface:wallet.Wallet.Type*(" + w + ")", " Coin: iface:wallet.Wallet.Coin*(" + w + ")", "Bip44Coin: iface:wallet.Wallet.Bip44Coin*(" + w + ")"}
+		if i == 1 {
+			want = append(want, "Password: $4,", "CryptoType: iface:wallet.Wallet.CryptoType*("+w+")")
+		}
+		for _, x := range want {
+			r.Check(rule, fmt.Sprintf("%s: wallet #%d is created with %s", f, i+1, strings.TrimSuffix(x, ",")), r.P.Pos(cs.Pos()), glob("*"+x+"*", t+","), trunc(t, 300))
+		}
+		r.Check(rule, fmt.Sprintf("%s: wallet #%d is created under the recovered wallet's name", f, i+1), r.P.Pos(cs.Pos()), r.argTerm(cs, 1) == "$1", r.argTerm(cs, 1))
+	}
+}
+
+// crossedFieldCopies: stores "x.F = [conv] y.G" where F != G although y also has a field F and x also has a
+// field G (of matching types): a configuration value copied into its sibling's slot.  Returns the number of
+// field-to-field copies inspected and the crossed ones.
+func crossedFieldCopies(p *Program, prefixes ...string) (n int, bad []string, pos []ssa.Instruction) {
+	fieldOf := func(v ssa.Value) (*types.Struct, int, bool) {
+		for d := 0; d < 4; d++ {
+			switch x := v.(type) {
+			case *ssa.Convert:
+				v = x.X
+				continue
+			case *ssa.ChangeType:
+				v = x.X
+				continue
+			}
+			break
+		}
+		switch x := v.(type) {
+		case *ssa.UnOp:
+			if fa, ok := x.X.(*ssa.FieldAddr); ok {
+				if st := derefStruct(fa.X.Type()); st != nil {
+					return st, fa.Field, true
+				}
+			}
+		case *ssa.Field:
+			if st, ok := x.X.Type().Underlying().(*types.Struct); ok {
+				return st, x.Field, true
+			}
+		}
+		return nil, 0, false
+	}
+	has := func(st *types.Struct, name string) (types.Type, bool) {
+		for i := 0; i < st.NumFields(); i++ {
+			if st.Field(i).Name() == name {
+				return st.Field(i).Type(), true
+			}
+		}
+		return nil, false
+	}
+	for _, fn := range p.ModFns {
+		name := FnName(fn)
+		ok := len(prefixes) == 0
+		for _, pre := range prefixes {
+			if strings.HasPrefix(name, pre) {
+				ok = true
+			}
+		}
+		if !ok {
+			continue
+		}
+		for _, b := range fn.Blocks {
+			for _, in := range b.Instrs {
+				st, isSt := in.(*ssa.Store)
+				if !isSt {
+					continue
+				}
+				fa, isFA := st.Addr.(*ssa.FieldAddr)
+				if !isFA {
+					continue
+				}
+				dst := derefStruct(fa.X.Type())
+				src, g, okSrc := fieldOf(st.Val)
+				if dst == nil || !okSrc {
+					continue
+				}
+				n++
+				F, G := dst.Field(fa.Field).Name(), src.Field(g).Name()
+				if F == G || types.Identical(src, dst) {
+					continue // a clamp inside one object (a.X = a.Y) is not a pass-through copy
+				}
+				tF, srcHasF := has(src, F)
+				tG, dstHasG := has(dst, G)
+				if srcHasF && dstHasG && types.Identical(tF, src.Field(g).Type()) && types.Identical(tG, dst.Field(fa.Field).Type()) {
+					bad = append(bad, fmt.Sprintf("%s: field %s is set from the other object's %s although that object has a field %s", name, F, G, F))
+					pos = append(pos, in)
+				}
+			}
+		}
+	}
+	return
+}
+
+// ruleConfigPassthrough: the configured limits reach the component that enforces them unchanged.
+func ruleConfigPassthrough(r *Run, rule string) {
+	n, bad, pos := crossedFieldCopies(r.P, "skycoin.", "daemon.", "visor.", "api.")
+	r.Units["field-to-field copies inspected"] += n
+	for i, b := range bad {
+		r.Check(rule, "configuration copy: "+b, r.P.Pos(pos[i].Pos()), false, "a limit is taken from its sibling setting")
+	}
+	if n < 40 {
+		r.Fail(rule, "field-to-field copies", "", fmt.Sprintf("anchor-unresolved: %d copies found, hand-confirmed minimum is 40", n))
+	}
+	r.Pass(rule, "no configuration value is copied into a sibling's slot", "", fmt.Sprintf("%d field-to-field copies inspected", n))
+	const cd = "skycoin.Coin.ConfigureDaemon"
+	r.RequireStore(rule, cd, "gnet incoming limit = configured incoming limit", "*.Pool.MaxIncomingMessageLength := $0.config.Node.MaxIncomingMessageLength")
+	r.RequireStore(rule, cd, "gnet outgoing limit = configured outgoing limit", "*.Pool.MaxOutgoingMessageLength := $0.config.Node.MaxOutgoingMessageLength")
+	r.RequireStore(rule, cd, "daemon outgoing limit = configured outgoing limit", "*.Daemon.MaxOutgoingMessageLength := uint64($0.config.Node.MaxOutgoingMessageLength)", "*.Daemon.MaxOutgoingMessageLength := $0.config.Node.MaxOutgoingMessageLength")
+	r.RequireStore(rule, cd, "daemon incoming limit = configured incoming limit", "*.Daemon.MaxIncomingMessageLength := uint64($0.config.Node.MaxIncomingMessageLength)", "*.Daemon.MaxIncomingMessageLength := $0.config.Node.MaxIncomingMessageLength")
+	r.RequireStore(rule, "daemon.NewPool", "connection pool incoming limit = pool config", "*.MaxIncomingMessageLength := $0.MaxIncomingMessageLength")
+	r.RequireStore(rule, "daemon.NewPool", "connection pool outgoing limit = pool config", "*.MaxOutgoingMessageLength := $0.MaxOutgoingMessageLength")
+}
+
+// floatUses: instructions of the functions with one of the given name prefixes that produce or consume a
+// floating-point value (binary floating point cannot represent decimal droplet amounts exactly).
+func floatUses(p *Program, prefixes ...string) (nFns int, uses []ssa.Instruction) {
+	isFloat := func(t types.Type) bool {
+		if t == nil {
+			return false
+		}
+		switch u := t.Underlying().(type) {
+		case *types.Basic:
+			return u.Info()&(types.IsFloat|types.IsComplex) != 0
+		case *types.Pointer:
+			if b, ok := u.Elem().Underlying().(*types.Basic); ok {
+				return b.Info()&(types.IsFloat|types.IsComplex) != 0
+			}
+		}
+		return false
+	}
+	for _, fn := range p.ModFns {
+		name := FnName(fn)
+		ok := false
+		for _, pre := range prefixes {
+			if strings.HasPrefix(name, pre) {
+				ok = true
+			}
+		}
+		if !ok {
+			continue
+		}
+		nFns++
+		for _, b := range fn.Blocks {
+			for _, in := range b.Instrs {
+				if v, isV := in.(ssa.Value); isV && isFloat(v.Type()) {
+					uses = append(uses, in)
+					continue
+				}
+				for _, op := range in.Operands(nil) {
+					if op != nil && *op != nil && isFloat((*op).Type()) {
+						uses = append(uses, in)
+						break
+					}
+				}
+			}
+		}
+	}
+	return
+}
+
+// loopAliasedAddrs: a variable declared outside a loop, reassigned in every iteration, whose address is stored
+// into memory inside that loop (appended to a slice, put into a map or a field): every stored pointer refers to
+// the same variable, so all of them end up describing the last iteration's value.
+func loopAliasedAddrs(p *Program, prefixes ...string) (nLoops int, bad []ssa.Instruction) {
+	for _, fn := range p.ModFns {
+		name := FnName(fn)
+		ok := false
+		for _, pre := range prefixes {
+			if strings.HasPrefix(name, pre) {
+				ok = true
+			}
+		}
+		if !ok || len(fn.Blocks) == 0 {
+			continue
+		}
+		ff := p.Facts(fn)
+		if len(ff.loops) == 0 {
+			continue
+		}
+		nLoops += len(ff.loops)
+		for _, b := range fn.Blocks {
+			for _, in := range b.Instrs {
+				al, isAl := in.(*ssa.Alloc)
+				if !isAl || !al.Heap || al.Referrers() == nil {
+					continue
+				}
+				for _, lp := range ff.loops {
+					if lp.Blocks[al.Block()] {
+						continue // a fresh variable per iteration
+					}
+					assigned, retained := false, ssa.Instruction(nil)
+					for _, ref := range *al.Referrers() {
+						if ref.Block() == nil || !lp.Blocks[ref.Block()] {
+							continue
+						}
+						switch x := ref.(type) {
+						case *ssa.Store:
+							if x.Addr == ssa.Value(al) {
+								assigned = true
+							}
+							if x.Val == ssa.Value(al) {
+								retained = x
+							}
+						case *ssa.MapUpdate:
+							if x.Value == ssa.Value(al) || x.Key == ssa.Value(al) {
+								retained = x
+							}
+						}
+					}
+					if assigned && retained != nil {
+						bad = append(bad, retained)
+					}
 				}
 			}
 		}
